@@ -36,6 +36,8 @@ var vfC11Ops = []vfC11Op{
 	{"sub(me obo alice)", "priv", "sub-me-obo"}, {"pub(grp obo alice)", "priv", "pub-grp-obo"},
 	{"note(me read)", "note", "me"}, {"note(grp kp)", "note", "grp"},
 	{"login(token from the last reply)", "login", "tok-last"}, {"login(basic carol needs validation)", "login", "basic-carol"},
+	{"login(basic carol + response for an unknown credential method)", "login", "basic-carol-bogus"},
+	{"login(basic carol + wrong e-mail response)", "login", "basic-carol-wrongresp"},
 	{"sub(sys obo self, authlevel root)", "priv", "sub-sys-oboself"}, {"acc(new basic suspended, obo self, authlevel root)", "acc", "new-susp-oboself"},
 }
 
@@ -142,6 +144,10 @@ func (x *vfC11World) request(op vfC11Op) string {
 			return `{"login":{"id":"$ID","scheme":"bogus","secret":"QUJD"}}`
 		case "basic-carol":
 			return fmt.Sprintf(`{"login":{"id":"$ID","scheme":"basic","secret":"%s"}}`, vfB64([]byte("carol:carol123")))
+		case "basic-carol-bogus":
+			return fmt.Sprintf(`{"login":{"id":"$ID","scheme":"basic","secret":"%s","cred":[{"meth":"bogus","resp":"123456"}]}}`, vfB64([]byte("carol:carol123")))
+		case "basic-carol-wrongresp":
+			return fmt.Sprintf(`{"login":{"id":"$ID","scheme":"basic","secret":"%s","cred":[{"meth":"email","resp":"000000"}]}}`, vfB64([]byte("carol:carol123")))
 		case "tok-last":
 			return fmt.Sprintf(`{"login":{"id":"$ID","scheme":"token","secret":"%s"}}`, vfB64(x.last))
 		}
@@ -296,6 +302,11 @@ func vfC11Exec(hist []int, last bool) vfXResult {
 							m.User, m.Lvl = n, sx.authLvl
 						}
 					}
+				}
+			case op.Arg == "basic-carol-bogus" || op.Arg == "basic-carol-wrongresp":
+				// an unvalidated account with a useless response must not be logged in (300 or an error)
+				if code == 200 {
+					bad("C11:unvalidated-login-accepted:"+op.Arg, fmt.Sprintf("%s answered %d", op.Name, code))
 				}
 			case op.Arg == "tok-carol" || op.Arg == "basic-carol":
 				if code != 300 {
